@@ -166,6 +166,10 @@ pub fn gen_transform(rng: &mut Rng) -> (CodecKind, Option<(CompKind, Level)>) {
 
 /// payload classes: empty, 1 byte, incompressible, highly repetitive, structured text
 pub fn text_of(i: usize, size: usize, fill: u64) -> String {
+    if size == 0 {
+        // a truly empty item (no index prefix): empty messages are legal and have their own paths
+        return String::new();
+    }
     let mut r = Rng::new(fill);
     let mut s = format!("{i}:");
     match fill % 3 {
@@ -189,6 +193,9 @@ pub fn text_of(i: usize, size: usize, fill: u64) -> String {
 }
 
 pub fn bytes_of(i: usize, size: usize, fill: u64) -> Vec<u8> {
+    if size == 0 {
+        return vec![];
+    }
     let mut v = format!("{i}:").into_bytes();
     if fill % 3 == 0 {
         v.resize(size.max(v.len()), (fill >> 8) as u8);
@@ -443,7 +450,7 @@ fn gen_size(rng: &mut Rng, big_ok: bool) -> usize {
 /// C03: one stream per run; message counts chosen relative to the batch size; gaps so that
 /// interval-triggered batches happen.
 pub fn gen_c03(rng: &mut Rng) -> E2eScript {
-    let (codec, comp) = gen_transform(rng);
+    let (codec, mut comp) = gen_transform(rng);
     let batching = if rng.chance(2, 5) { None } else { Some((*rng.pick(&[1u32, 2, 3, 4, 5, 8, 10, 100, 250, 300]), *rng.pick(&[0u64, 1, 100, 100, 10_000]))) };
     let n = match batching {
         Some((size, _)) => {
@@ -463,8 +470,23 @@ pub fn gen_c03(rng: &mut Rng) -> E2eScript {
             }
         }
     }
-    let pattern = *rng.pick(&[Pattern::SendEach, Pattern::SendEach, Pattern::FeedThenFlush, Pattern::FeedThenFinish, Pattern::SendAll]);
-    let gaps_ms = if rng.chance(1, 2) { vec![] } else { (0..rng.usize(1, 4)).map(|_| *rng.pick(&[0u64, 0, 1, 50, 150, 2000])).collect() };
+    // rarely: far more small messages than fit into one frame, under a batch size that would take
+    // them all (the batch has to be cut by its encoded size, length markers included)
+    let mut batching = batching;
+    let mut many_small = false;
+    if batching.is_some() && rng.chance(1, 20) {
+        batching = Some((*rng.pick(&[1_000u32, 5_000, 20_000]), 10_000));
+        let each = *rng.pick(&[60usize, 100, 100, 400, 1_000, 2_500]);
+        let total = *rng.pick(&[1_200_000usize, 2_300_000]);
+        payloads = (0..total / each).map(|_| (each - rng.usize(0, 7), rng.next())).collect();
+        many_small = true;
+        // the frame limit applies after compression: mostly leave these uncompressed
+        if rng.chance(2, 3) {
+            comp = None;
+        }
+    }
+    let pattern = if many_small { *rng.pick(&[Pattern::SendEach, Pattern::FeedThenFinish]) } else { *rng.pick(&[Pattern::SendEach, Pattern::SendEach, Pattern::FeedThenFlush, Pattern::FeedThenFinish, Pattern::SendAll]) };
+    let gaps_ms = if many_small || rng.chance(1, 2) { vec![] } else { (0..rng.usize(1, 4)).map(|_| *rng.pick(&[0u64, 0, 1, 50, 150, 2000])).collect() };
     // late readers need the whole exchange to fit into the flow-control windows
     let early_readers = payloads.iter().map(|p| p.0).sum::<usize>() > 400_000 || rng.chance(1, 2);
     E2eScript { net: mild_net(rng), rt_seed: rng.next(), streams: vec![StreamSpec { codec, comp, batching, n_subs: rng.usize(1, 2), payloads, pattern, gaps_ms, early_readers }] }
